@@ -104,7 +104,7 @@ func c17Gen(rng *core.RNG, idx int) c17Profile {
 			case 2:
 				nrec = 7 + rng.Intn(34)
 			}
-			content = []string{"ascii", "bmp", "astral", "empty-en", "latin1", "bom", "long-astral"}[rng.Intn(7)]
+			content = []string{"ascii", "bmp", "astral", "empty-en", "latin1", "bom", "long-astral", "hi00"}[rng.Intn(8)]
 			enpos = []string{"first", "middle", "last", "absent", "twice"}[rng.Intn(5)]
 			if nrec == 1 && (enpos == "middle" || enpos == "twice") {
 				enpos = "first"
